@@ -417,6 +417,83 @@ pub fn run(ctx: &Ctx) {
             });
             ctx.require("cli: long password keys the file exactly", 4);
         }
+        // passwords that are not valid UTF-8 (legal in the environment): the tool may refuse them; if it uses them, the
+        // file is keyed by exactly those bytes - never by a lossy rendering that other byte strings share - and another
+        // invalid byte string (or the replacement-character rendering) does not open it
+        {
+            use crate::cli::{Cmd, Exit, Stdin, WorkDir};
+            use std::os::unix::ffi::OsStringExt;
+            let wd = WorkDir::new("c02n");
+            let pairs: Vec<(Vec<u8>, Vec<u8>)> = vec![
+                (b"s3cr\xe9t".to_vec(), b"s3cr\xe8t".to_vec()),
+                (b"\xff\xfe-k".to_vec(), "\u{fffd}\u{fffd}-k".as_bytes().to_vec()),
+                (b"tail\xc3".to_vec(), b"tail\xc2".to_vec()),
+                (b"\x80".to_vec(), b"\x81".to_vec()),
+                (b"mid\xf0\x9f\x94dle".to_vec(), b"mid\xf0\x9f\x95dle".to_vec()),
+                (b"latin1 caf\xe9".to_vec(), "latin1 caf\u{e9}".as_bytes().to_vec()),
+            ];
+            for (i, (w, other)) in pairs.iter().enumerate() {
+                let pt = Rng::fork(ctx.seed, &format!("C02-nonutf8-{}", i)).bytes(500);
+                let raw = |b: &Vec<u8>| std::ffi::OsString::from_vec(b.clone());
+                let e = Cmd::new(&wd.path, &["password", "encrypt", "--env-pass"]).env_os("KESTREL_PASSWORD", raw(w)).stdin(Stdin::Bytes(pt.clone())).run();
+                ctx.eval();
+                match &e.exit {
+                    Exit::Timeout => {
+                        ctx.inconclusive("C02 cli: timeout");
+                        continue;
+                    }
+                    Exit::Code(1) if e.has_error_line() && e.stdout.is_empty() => {
+                        ctx.seen("cli: non-UTF-8 password refused for encryption");
+                        ctx.distinct(&format!("cli-nonutf8|{}|refused", i));
+                    }
+                    Exit::Code(0) => {
+                        if !matches!(refspec::decode_pass_file(&e.stdout, w), Ok(d) if d.body.complete() && d.body.plaintext() == pt) {
+                            ctx.violation("C02:cli:file-is-not-keyed-by-the-exact-password-given:non-utf8-password", json!({"password_hex": hex(w), "exit": e.exit.describe(), "stderr": e.stderr_s(), "note": "the reference cannot open the file with exactly the bytes that were in KESTREL_PASSWORD"}));
+                            continue;
+                        }
+                        ctx.seen("cli: non-UTF-8 password used byte-exactly for encryption");
+                        ctx.distinct(&format!("cli-nonutf8|{}|exact", i));
+                    }
+                    other => {
+                        ctx.violation(&format!("C02:cli:non-utf8-password:{}", other.describe().replace(' ', "-")), json!({"password_hex": hex(w), "stderr": e.stderr_s()}));
+                        continue;
+                    }
+                }
+                // decryption side: a file the reference made under w; offered w (refused or exact) and the other string (never accepted)
+                let f = refspec::encode_pass_file(w, &Rng::fork(ctx.seed, &format!("C02-nonutf8-salt-{}", i)).arr32(), &pt, &[pt.len()]);
+                let fp = wd.write(&format!("n{}.ktl", i), &f);
+                let d = Cmd::new(&wd.path, &["password", "decrypt", fp.to_str().unwrap(), "--env-pass"]).env_os("KESTREL_PASSWORD", raw(w)).run();
+                ctx.eval();
+                if !((d.exit == Exit::Code(0) && d.stdout == pt) || (d.exit == Exit::Code(1) && d.stdout.is_empty())) {
+                    ctx.violation("C02:cli:non-utf8-password:decrypt-neither-refused-nor-exact", json!({"password_hex": hex(w), "exit": d.exit.describe(), "released_bytes": d.stdout.len(), "stderr": d.stderr_s()}));
+                    continue;
+                }
+                let d2 = Cmd::new(&wd.path, &["password", "decrypt", fp.to_str().unwrap(), "--env-pass"]).env_os("KESTREL_PASSWORD", raw(other)).run();
+                ctx.eval();
+                if d2.exit == Exit::Code(0) || !d2.stdout.is_empty() {
+                    ctx.violation("C02:cli:different-password-accepted:non-utf8-password", json!({"file_made_under_hex": hex(w), "offered_hex": hex(other), "exit": d2.exit.describe(), "released_bytes": d2.stdout.len()}));
+                    continue;
+                }
+                // and the mirror image: a file the TOOL made under `other` (if it accepts it) must not open under w
+                let e2 = Cmd::new(&wd.path, &["password", "encrypt", "--env-pass"]).env_os("KESTREL_PASSWORD", raw(other)).stdin(Stdin::Bytes(pt.clone())).run();
+                ctx.eval();
+                if e2.exit == Exit::Code(0) {
+                    if refspec::decode_pass_file(&e2.stdout, w).map(|d| d.body.complete() || !d.body.chunks.is_empty()).unwrap_or(false) {
+                        ctx.violation("C02:cli:different-password-accepted:non-utf8-password", json!({"file_made_by_the_tool_under_hex": hex(other), "opens_under_hex": hex(w)}));
+                        continue;
+                    }
+                    let fp2 = wd.write(&format!("m{}.ktl", i), &e2.stdout);
+                    let d3 = Cmd::new(&wd.path, &["password", "decrypt", fp2.to_str().unwrap(), "--env-pass"]).env_os("KESTREL_PASSWORD", raw(w)).run();
+                    ctx.eval();
+                    if d3.exit == Exit::Code(0) || !d3.stdout.is_empty() {
+                        ctx.violation("C02:cli:different-password-accepted:non-utf8-password", json!({"file_made_by_the_tool_under_hex": hex(other), "offered_hex": hex(w), "exit": d3.exit.describe(), "released_bytes": d3.stdout.len()}));
+                        continue;
+                    }
+                }
+                ctx.seen("cli: non-UTF-8 passwords: refused or byte-exact, look-alikes never accepted");
+            }
+            ctx.require("cli: non-UTF-8 passwords: refused or byte-exact", 4);
+        }
         crate::ttylanes::c02(ctx);
         ctx.require("tty: typed password round trip", 4);
     }
